@@ -20,6 +20,13 @@ FIRST_PASS_CAUGHT = {
     'C01-r3-reset-cached-dependants-transitive', 'C03-r3-loader-prefers-unrelated-text-file',
     'C08-r3-drop-empty-frozen-cells', 'C09-r3-cached-error-outlives-overwrite',
     'C12-r3-array-result-spill-overwrites-stored',
+    # round 4 (machinery as it stood after round 3; reconstructed from the commit history of the
+    # session that was interrupted while working through this round)
+    'C01-r4-contained-cell-edge-dedupe', 'C06-r4-new-cell-marking-moved-to-build-cell',
+    'C06-r4-tolerance-via-isclose-relative-slack', 'C08-r4-pickle-drops-formula-results',
+    'C09-r4-unlogged-failure',
+    # round 5 (machinery as it stood after round 4)
+    'C12-r5-error-is-an-error',
 }
 
 NOTES = {
@@ -50,13 +57,36 @@ NOTES = {
     'C08-r3-recalculate-before-trim': 'inputs (buried ones included) assigned between the evaluation of the outputs and the trim',
     'C09-r3-reset-skips-unvalued-ranges': 'caught after the grammar extensions of this round (single-cell intersections, chained ranges): thin, a few runs per quick check',
     'C12-r3-volatile-functions-drop-stored-result': 'computed references (=OFFSET(..), =INDIRECT("..")) in C12 workbooks that are validated as a whole',
+    # round 4
+    'C01-r4-unbounded-ref-rebuilds-cell': 'data sheets of one row / one column (the used part of A:A is a single cell) and formulas on them',
+    'C03-r4-apostrophe-escape': "text beginning with an apostrophe followed by '=' in the hostile pool",
+    'C03-r4-unchanged-model-skip': 'extra_data assigned or edited in place between two saves',
+    'C04-r4-sparse-range-blank-members': 'gadget: a range of more than a thousand cells of which a handful are in use, one blank member also read on its own; C04 checks the members of a range from the rectangle, not from what the node declares',
+    'C04-r4-trim-graph-drops-range-nodes': "one C04 run in eight is a trimmed model (C08's histories plus writes to constants the trim kept as values) under the read-trace monitor",
+    'C05-r4-const-range-snapshot': 'a third of the C05 workbooks have constants written (after being read on their own) before or between the first touches',
+    'C05-r4-defined-name-probe': 'a defined name reserved beyond the used area; new rule: a whole column / row never comes back longer than the last cell of the sheet',
+    'C07-r4-eval-context-bound-to-building-thread': 'build mode "handoff": the thread that compiled the workbook also evaluated it first, another thread goes on; the reference is the first thread going on itself',
+    'C07-r4-plugin-module-taken-half-imported': 'fault "import that takes a while": a plugin module with a yield point in its body, an import seam that makes a thread wait for the importing one (as the interpreter\'s import lock does)',
+    'C08-r4-unbounded-range-no-cache': 'lookup gadget: VLOOKUP / INDEX-MATCH through whole-column references over a list no input feeds, key = an input; lookup functions in the grammar',
+    'C09-r4-whole-column-in-progress': 'a reader of the whole column the failing cell stands in (=SUM(Data!B:B)+1)',
+    'C12-r4-noop-set-value-stale-flag': 'prelude before validate_calcs: cells evaluated, inputs assigned the value they already hold',
+    'C12-r4-shared-values-workbook': 'the workbook file is validated, rewritten in place (half of the time with the same size: stored, one character altered) and compiled again',
+    # round 5
+    'C01-r5-reset-stops-at-valueless-ranges': 'array formulas over an intersection of written ranges',
+    'C03-r5-dependants-list-deep-pickle': 'deep model: a running-balance column of 320-480 cells, swept in address order',
+    'C04-r5-set-over-formula-drops-edges': 'a value assigned over a formula that is later calculated again (set_value(cell, None) / recalculate()), then writes to its precedents',
+    'C05-r5-exact-match-index-memo': 'lookup gadget with look-alike lists (TRUE next to 1) and a third list; first pass ended in HARNESS-ERROR (the replay gave the same rule through another access path): C05 tags no longer carry the path. Thin: the memo is process-wide, reference and model under test are poisoned alike most of the time',
+    'C06-r5-self-reference-not-a-loop': 'diagonal and lower triangular systems (every loop a cell that refers to itself), one-cell systems',
+    'C07-r5-reset-replaces-thread-local': "programs whose evaluations raise (unknown function, self-reference) next to other threads' evaluations",
+    'C08-r5-lazy-if-untaken-branch': 'branch gadget: IF / CHOOSE / IFERROR over branch cells nobody else reads, the switch is an input',
+    'C09-r5-iteration-counter-rewound-at-the-end': 'fault-inside-a-cycle workload: a slowly settling loop unrelated to the failing cell; every evaluation that works is bounded and stops early only within the tolerance',
 }
 
 
 def main():
     logdir = sys.argv[1]
     head = subprocess.check_output(['git', '-C', '/repo', 'log', '--format=%h', '-1']).decode().strip()
-    rows = {2: [], 3: []}
+    rows = {2: [], 3: [], 4: [], 5: []}
     for meta_path in sorted(glob.glob(os.path.join(VERIF, 'seeded', '*', 'meta.json'))):
         name = os.path.basename(os.path.dirname(meta_path))
         log_path = os.path.join(logdir, name + '.log')
@@ -66,6 +96,11 @@ def main():
         meta = json.load(open(meta_path))
         prop = name[:3]
         suite = re.search(r'== suite with the change\n(.*)', log)
+        if not suite:
+            for extra in sys.argv[2:]:
+                lp = os.path.join(extra, name + '.log')
+                if os.path.exists(lp):
+                    suite = suite or re.search(r'== suite with the change\n(.*)', open(lp).read())
         suite = suite.group(1).strip() if suite else 'not run'
         inert = 'DEMO PASSES WITH THE CHANGE' in log
         tags = re.findall(r'violation tag=(\S+) runs=(\d+)', log)
@@ -80,12 +115,14 @@ def main():
                       f'{total.group(2)} of {total.group(1)} quick runs')
         else:
             result = f'missed by {prop} quick'
+        if 'HARNESS-ERROR' in log and tags:
+            harness = False      # (an error of a later tag after a reported one)
         other = {'C03-r3-loaded-code-address-scan-misses-range-union': 'C04',
                  'C06-r3-shared-tolerance-across-threads': 'C07',
                  'C03-pickle-drops-range-reference-value': None}.get(name)
         if other and not tags:
             result += f'; caught by {other} quick (see tools/try_seeded.sh <dir> {other})'
-        rnd = 3 if '-r3-' in name else 2 if '-r2-' in name else 1
+        rnd = next((k_ for k_ in (5, 4, 3, 2) if f'-r{k_}-' in name), 1)
         meta.update({
             'property': prop,
             'written_by': 'independent sub-agent given only the property text and a scratch worktree',
@@ -115,7 +152,7 @@ def main():
             note = NOTES.get(name, '')
             rows[rnd].append(f'| `seeded/{name}` | {needs} | {fp} | {result}'
                              + (f' - {note}' if note and fp == 'missed' else '') + ' |')
-    for rnd in (2, 3):
+    for rnd in (2, 3, 4, 5):
         print(f'\n#### Round {rnd}\n')
         print('| change | needs (from the author\'s meta.json) | first pass | now |')
         print('|--------|--------------------------------------|------------|-----|')
